@@ -176,7 +176,7 @@ Proof.
   pose proof (load_len _ _ _ _ Lbs) as Hlb. rewrite Z.max_r in Hlb by lia.
   unfold d_buffer. cbn [d_mem d_iov d_failed fix_zero_ptr fix_fail_len cfg_final]. rewrite En. cbn [bind].
   destruct (ns =? 0) eqn:E0.
-  - apply Z.eqb_eq in E0. subst ns. apply len_zero_nil in Hlb. subst bs. cbn [app] in Hf.
+  - apply Z.eqb_eq in E0. rewrite E0 in Hlb. apply len_zero_nil in Hlb. subst bs. subst ns. cbn [app] in Hf.
     destruct (store64_ok m v a 0 Hinv Hva) as [m1 [Hs [Hi1 Hl1]]]. rewrite Hs. cbn [bind].
     assert (Hsep8 : forall x k, sep (x, k) (a, 16) -> sep (x, k) (a, len (le_enc 8 0))).
     { intros x k S. rewrite le_enc_len. eapply sep_sub_r; [exact S|]. unfold within. cbn. lia. }
@@ -223,8 +223,149 @@ Proof.
       unfold load64. rewrite (Fr1 _ _ Hvb). exact En. }
     split.
     { unfold store64 in Hs2. rewrite (load_store_sep _ _ _ _ _ _ Hs2); [exact Lp|]. apply Hsep8. apply (proj1 (HsepO c0 Hc0)). }
-    split; [right; auto|].
+    split; [right; split; [reflexivity|split; [apply Z.eqb_neq in Ep; exact Ep|exact E0]]|].
     intros x k [c [Hc Wc]] Hsx. unfold store64 in Hs2. rewrite (load_store_sep _ _ _ _ _ _ Hs2).
     + apply Fr1. apply (validb_sub' _ (fst c) (snd c)); [exact Hwf|apply HvO; exact Hc| |]; unfold within in Wc; cbn [fst snd] in Wc; lia.
     + rewrite le_enc_len. eapply sep_sub_r; [apply Hsx; left; reflexivity|]. unfold within. cbn. lia.
+Qed.
+
+(* ---- the field recursion ---- *)
+Fixpoint sup_f (f : field) : Prop :=
+  match f with FIov | FAIov => False | FArr _ efs => sup_fs efs | FNest fs => sup_fs fs | _ => True end
+with sup_fs (fs : fields) : Prop := match fs with FNil => True | FCons _ f r => sup_f f /\ sup_fs r end.
+
+Definition d_loop (efs : fields) (esz : Z) := fix loop (k : nat) (st : dst) (e : Z) {struct k} : res dst :=
+  match k with O => Ok st | S k' => st' <- d_fields cfg_final efs st e ;; loop k' st' (e + esz) end.
+
+Lemma d_loop_S efs esz k st e : d_loop efs esz (S k) st e = (st' <- d_fields cfg_final efs st e ;; d_loop efs esz k st' (e + esz)).
+Proof. reflexivity. Qed.
+
+Lemma d_field_arr esz efs st a : d_field cfg_final (FArr esz efs) st a =
+  (st1 <- d_buffer cfg_final st a ;; p <- load64 (d_mem st1) a ;; n <- load64 (d_mem st1) (a + 8) ;;
+   if n / esz =? 0 then Ok st1 else if p =? 0 then Err EOOB else
+   if fields_active efs then d_loop efs esz (Z.to_nat (n / esz)) st1 p else Ok st1).
+Proof. reflexivity. Qed.
+
+Definition step_post (st st' : dst) (Own new : list (Z * Z)) (w' : list byte) (bound : Z) (W : list (Z * Z)) : Prop :=
+  d_failed st' = d_failed st /\
+  Rinv (d_mem st') (d_iov st') w' (Own ++ new) /\ ext (lens (d_mem st)) (lens (d_mem st')) /\
+  i_cap (d_iov st') = i_cap (d_iov st) /\ i_nb (d_iov st') <= i_nb (d_iov st) + bound /\
+  frameO (d_mem st) (d_mem st') Own W.
+
+Lemma len2 {A} (x y : A) l : len (x :: y :: l) = 2 + len l.
+Proof. rewrite !len_cons. lia. Qed.
+
+Section RT.
+Variable ms : mem.
+Hypothesis ms_wf : Forall (fun L => L <= STRIDE) (lens ms).
+
+Definition Pf (f : field) : Prop := forall avail st a sa Own c0 val wf Fs w',
+  field_wf avail f -> sup_f f -> lay_f f -> psep (aranges_f f a) ->
+  Rinv (d_mem st) (d_iov st) (wf ++ w') Own -> In c0 Own -> within (a, avail) c0 ->
+  rd_f f ms sa = Ok (val, wf, Fs) -> eq_f f (d_mem st) a ms sa ->
+  i_nb (d_iov st) + len Fs <= i_cap (d_iov st) ->
+  exists st' new, d_field cfg_final f st a = Ok st' /\
+    step_post st st' Own new w' (len Fs) (aranges_f f a) /\
+    exists w2 F, rd_f f (d_mem st') a = Ok (val, w2, F) /\ fpok F (aranges_f f a) new.
+
+Definition Pfs (fs : fields) : Prop := forall sz st base sbase Own c0 vals wf Fs w',
+  fields_wf sz fs -> sup_fs fs -> lay_fs fs -> psep (aranges_fs fs base) ->
+  Rinv (d_mem st) (d_iov st) (wf ++ w') Own -> In c0 Own -> within (base, sz) c0 ->
+  rd_fs fs ms sbase = Ok (vals, wf, Fs) -> eq_fs fs (d_mem st) base ms sbase ->
+  i_nb (d_iov st) + len Fs <= i_cap (d_iov st) ->
+  exists st' new, d_fields cfg_final fs st base = Ok st' /\
+    step_post st st' Own new w' (len Fs) (aranges_fs fs base) /\
+    exists w2 F, rd_fs fs (d_mem st') base = Ok (vals, w2, F) /\ fpok F (aranges_fs fs base) new.
+
+Lemma leaf_buf f :
+  (forall st a, d_field cfg_final f st a = d_buffer cfg_final st a) ->
+  (forall m a, rd_f f m a = rd_f FBuf m a) ->
+  (forall a, aranges_f f a = [(a, 16)]) ->
+  (forall avail, field_wf avail f -> 16 <= avail) ->
+  (forall mr a sa, eq_f f mr a ms sa -> load64 mr (a + 8) = load64 ms (sa + 8)) ->
+  Pf f.
+Proof.
+  intros Hd Hr Ha Hw He avail st a sa Own c0 val wf Fs w' Hwf _ _ _ HR Hc0 Wc Hrd Heq Hnb.
+  rewrite Hr in Hrd. cbn [rd_f] in Hrd.
+  destruct (load64 ms sa) as [ps|] eqn:Lps; cbn [bind] in Hrd; [|discriminate].
+  destruct (load64 ms (sa + 8)) as [ns|] eqn:Lns; cbn [bind] in Hrd; [|discriminate].
+  destruct (load ms ps ns) as [bs|] eqn:Lbs; cbn [bind] in Hrd; [|discriminate].
+  inversion Hrd. subst val wf Fs. clear Hrd. rewrite len2, len_nil in Hnb.
+  specialize (Hw _ Hwf).
+  destruct (d_buffer_rt st a Own c0 ms sa ps ns bs w' HR Hc0) as [st' [new [p [Hdb [Hfl [HR' [Hx [Hc [Hn [L1 [L2 [L3 [Hnew Hfr]]]]]]]]]]]]]; auto.
+  { unfold within in *. cbn [fst snd] in *. lia. }
+  { lia. }
+  exists st', new. split; [rewrite Hd; exact Hdb|]. split.
+  { unfold step_post. rewrite Ha, len2, len_nil. repeat split; try assumption. lia. }
+  exists bs, [(a, 16); (p, ns)]. split.
+  { rewrite Hr. cbn [rd_f]. rewrite L1. cbn [bind]. rewrite L2. cbn [bind]. rewrite L3. reflexivity. }
+  intros r [<-|[<-|[]]].
+  - right. left. exists (a, 16). rewrite Ha. split; [left; reflexivity|apply within_refl].
+  - destruct Hnew as [[-> ->]|[-> _]]; [left; cbn; lia|]. right. right. exists (p, ns). split; [left; reflexivity|apply within_refl].
+Qed.
+
+Lemma step_post_refl st Own w' bound W : Rinv (d_mem st) (d_iov st) w' Own -> 0 <= bound -> step_post st st Own [] w' bound W.
+Proof.
+  intros HR Hb. unfold step_post. rewrite app_nil_r. split; [reflexivity|]. split; [exact HR|]. split; [apply ext_refl|].
+  split; [reflexivity|]. split; [lia|apply frameO_refl].
+Qed.
+
+Lemma loop_rt efs esz : Pfs efs -> 0 < esz -> fields_wf esz efs -> sup_fs efs -> lay_fs efs -> (forall e, psep (aranges_fs efs e)) ->
+  forall k st e se Own c0 vss we Fe w',
+  Rinv (d_mem st) (d_iov st) (we ++ w') Own -> In c0 Own -> within (e, Z.of_nat k * esz) c0 ->
+  rd_elems (rd_fs efs ms) k se esz = Ok (vss, we, Fe) -> blk (d_mem st) e ms se (Z.of_nat k * esz) ->
+  i_nb (d_iov st) + len Fe <= i_cap (d_iov st) ->
+  exists st' new, d_loop efs esz k st e = Ok st' /\
+    step_post st st' Own new w' (len Fe) [(e, Z.of_nat k * esz)] /\
+    exists w2 F, rd_elems (rd_fs efs (d_mem st')) k e esz = Ok (vss, w2, F) /\ fpok F [(e, Z.of_nat k * esz)] new.
+Proof.
+  intros HP Hesz Hwf Hsup Hlay Hps. induction k as [|k IH]; intros st e se Own c0 vss we Fe w' HR Hc0 Wc Hrd B Hnb.
+  - cbn [rd_elems] in Hrd. inversion Hrd. subst vss we Fe. exists st, []. split; [reflexivity|].
+    split; [apply step_post_refl; [exact HR|rewrite len_nil; lia]|]. exists [], []. split; [reflexivity|]. intros r [].
+  - rewrite Nat2Z.inj_succ, Z.mul_succ_l in *. set (K := Z.of_nat k) in *. assert (HK : 0 <= K) by (unfold K; lia).
+    assert (HKe : 0 <= K * esz) by nia.
+    cbn [rd_elems] in Hrd.
+    destruct (rd_fs efs ms se) as [[[v1 w1] F1]|] eqn:E1; cbn [bind] in Hrd; [|discriminate].
+    destruct (rd_elems (rd_fs efs ms) k (se + esz) esz) as [[[vs w2] F2]|] eqn:E2; cbn [bind] in Hrd; [|discriminate].
+    inversion Hrd. subst vss we Fe. clear Hrd. rewrite <- app_assoc in HR. rewrite len_app in Hnb.
+    pose proof (len_nonneg F1) as HF1. pose proof (len_nonneg F2) as HF2.
+    assert (W1 : within (e, esz) c0) by (unfold within in *; cbn [fst snd] in *; lia).
+    assert (W2 : within (e + esz, K * esz) c0) by (unfold within in *; cbn [fst snd] in *; lia).
+    destruct (HP esz st e se Own c0 v1 w1 F1 (w2 ++ w') Hwf Hsup Hlay (Hps e) HR Hc0 W1 E1) as [st1 [new1 [Hd1 [SP1 [w21 [F1' [Hr1 Hf1]]]]]]].
+    { apply (proj2 (blk_eq _ _) efs esz e se Hwf). eapply blk_sub; [exact B|lia]. }
+    { lia. }
+    destruct SP1 as [Hfl1 [HR1 [Hx1 [Hc1 [Hn1 Hfr1]]]]].
+    assert (HS1 : forall s, In s (aranges_fs efs e) -> within s (e, esz)) by (apply (proj2 aranges_within efs esz e Hwf)).
+    destruct (IH st1 (e + esz) (se + esz) (Own ++ new1) c0 vs w2 F2 w' HR1 ltac:(apply in_or_app; left; exact Hc0) W2 E2) as [st2 [new2 [Hd2 [SP2 [w22 [F2' [Hr2 Hf2]]]]]]].
+    { intros o j Ho Hj Hoj. rewrite Hfr1.
+      - replace (K * esz) with (K * esz + esz - esz) in Hoj by lia. apply (blk_shift _ _ _ _ _ esz B ltac:(lia)); lia.
+      - exists c0. split; [exact Hc0|]. unfold within in *. cbn [fst snd] in *. lia.
+      - intros r Hr. eapply sep_sub_r; [|apply HS1; exact Hr]. unfold sep. cbn [fst snd]. lia. }
+    { lia. }
+    destruct SP2 as [Hfl2 [HR2 [Hx2 [Hc2 [Hn2 Hfr2]]]]].
+    exists st2, (new1 ++ new2). split; [rewrite d_loop_S, Hd1; cbn [bind]; exact Hd2|]. split.
+    { unfold step_post. split; [congruence|]. split; [rewrite app_assoc; exact HR2|]. split; [eapply ext_trans; eauto|].
+      split; [congruence|]. split; [rewrite len_app; lia|].
+      intros x j Hc Hs. rewrite Hfr2.
+      - apply Hfr1; [exact Hc|]. intros r Hr. eapply sep_sub_r; [apply Hs; left; reflexivity|].
+        eapply within_trans; [apply HS1; exact Hr|]. unfold within. cbn [fst snd]. lia.
+      - destruct Hc as [c [Hc Wx]]. exists c. split; [apply in_or_app; left; exact Hc|exact Wx].
+      - intros r [<-|[]]. eapply sep_sub_r; [apply Hs; left; reflexivity|]. unfold within. cbn [fst snd]. lia. }
+    destruct HR1 as [_ [_ [_ [HpO1 _]]]].
+    assert (St : forall r, In r F1' -> agree (d_mem st1) (d_mem st2) r).
+    { apply (stab _ _ Own new1 F1' (aranges_fs efs e) [(e + esz, K * esz)] c0 Hf1 Hfr2 HpO1 Hc0).
+      - intros s Hs. eapply within_trans; [apply HS1; exact Hs|exact W1].
+      - intros s [<-|[]]. exact W2.
+      - intros s1 s2 Hs1 [<-|[]]. eapply within_sep; [apply HS1; exact Hs1|]. unfold sep. cbn [fst snd]. lia. }
+    exists (w21 ++ w22), (F1' ++ F2'). split.
+    { cbn [rd_elems]. rewrite (proj2 (rd_stable _ _) efs e _ Hr1 St). cbn [bind]. rewrite Hr2. reflexivity. }
+    intros r Hr. apply in_app_or in Hr. destruct Hr as [Hr|Hr].
+    + destruct (Hf1 r Hr) as [H|[[s [Hs Ws]]|[c [Hc Wx]]]]; [left; exact H| |].
+      * right. left. exists (e, K * esz + esz). split; [left; reflexivity|]. eapply within_trans; [exact Ws|].
+        eapply within_trans; [apply HS1; exact Hs|]. unfold within. cbn [fst snd]. lia.
+      * right. right. exists c. split; [apply in_or_app; left; exact Hc|exact Wx].
+    + destruct (Hf2 r Hr) as [H|[[s [[<-|[]] Ws]]|[c [Hc Wx]]]]; [left; exact H| |].
+      * right. left. exists (e, K * esz + esz). split; [left; reflexivity|]. eapply within_trans; [exact Ws|].
+        unfold within. cbn [fst snd]. lia.
+      * right. right. exists c. split; [apply in_or_app; right; exact Hc|exact Wx].
 Qed.
